@@ -1,35 +1,39 @@
 package main
 
 import (
+	"container/list"
 	"fmt"
-	"time"
 
 	"github.com/iotaledger/hive.go/ds"
 )
 
-// probe reproduces the two listed defects on the real code (D10a, D10b) and prints what it saw.
+func try(name string, f func()) {
+	defer func() {
+		if r := recover(); r != nil {
+			fmt.Printf("%s -> PANIC %v\n", name, r)
+		}
+	}()
+	f()
+}
+
 func probe() {
 	for _, lockFree := range []bool{true, false} {
 		l := ds.NewList[int](lockFree)
+		fmt.Printf("lockFree=%v Init()==l: %v\n", lockFree, l.Init() == l)
 		a := l.PushBack(1)
-		l.PushBack(2)
-		c := l.PushBack(3)
-		l.MoveBefore(c, a)
-		fmt.Printf("lockFree=%v [1 2 3]; MoveBefore(c,a) -> %v (container/list: [3 1 2])\n", lockFree, l.Values())
-		l.MoveAfter(a, c)
-		fmt.Printf("lockFree=%v MoveAfter(a,c) -> %v\n", lockFree, l.Values())
+		l.Init()
+		l.InsertAfter(2, a)
+		r := l.Front()
+		fmt.Printf("lockFree=%v leaked front: len=%d value=%v next=%v\n", lockFree, l.Len(), r.Value(), r.Next())
+		try("ds Remove(sentinel)", func() { fmt.Println("ds Remove(sentinel) ->", l.Remove(r)) })
+		try("ds PushBackList(zombie)", func() { m := ds.NewList[int](lockFree); m.PushBackList(l); fmt.Println("ds PushBackList(zombie) ->", m.Values()) })
 	}
-	for _, lockFree := range []bool{true, false} {
-		l := ds.NewList[int](lockFree)
-		l.PushBack(1)
-		l.PushBack(2)
-		done := make(chan struct{})
-		go func() { l.PushBackList(l); close(done) }()
-		select {
-		case <-done:
-			fmt.Printf("lockFree=%v l.PushBackList(l) -> %v\n", lockFree, l.Values())
-		case <-time.After(300 * time.Millisecond):
-			fmt.Printf("lockFree=%v l.PushBackList(l) -> HANG (300ms)\n", lockFree)
-		}
-	}
+	l := list.New()
+	a := l.PushBack(1)
+	l.Init()
+	l.InsertAfter(2, a)
+	r := l.Front()
+	fmt.Printf("container/list leaked front: len=%d value=%v next=%v\n", l.Len(), r.Value, r.Next())
+	try("cl Remove(sentinel)", func() { fmt.Println("cl Remove(sentinel) ->", l.Remove(r)) })
+	try("cl PushBackList(zombie)", func() { m := list.New(); m.PushBackList(l); fmt.Println("cl PushBackList(zombie) ->", m.Len(), m.Front().Value) })
 }
